@@ -16,14 +16,22 @@
 //	           DeriveValueFrom, Counter.Monitor and SortedSet weights attached BEFORE the writes; Events with a
 //	           Counter, a DerivedVariable and an InheritFrom copy attached. Sequential histories (oracle after every
 //	           step, the fingerprint names the entry point) and concurrent rounds (oracle after the join).
-//	entry-set  sources with a DerivedSet, a chained DerivedSet and SubtractReactive attached; sequential histories
-//	           over all Set entry points.
+//	entry-set  chains of reactive sets three levels deep (sources -> DerivedSet / SubtractReactive -> chained
+//	           DerivedSet / SubtractReactive of derived sets -> third level); sequential histories in which the
+//	           sources AND the middle nodes are written through all Set entry points (the middle nodes mostly with
+//	           writes that change nothing), every level checked after every step against the current contents of
+//	           its parents; writes that fail or abort part-way (Decode of a payload cut at every position, Compute
+//	           whose factory panics, InheritFrom torn down from inside the update being delivered).
+//
+// entry-var does the same for Variables in its sequential half: input -> DerivedVariable -> DerivedVariable ->
+// DerivedVariable2, input -> InheritFrom copy -> copy of the copy -> DerivedVariable, Counter -> DerivedVariable,
+// with direct writes on the middle nodes, teardown of InheritFrom / DeriveValueFrom inside an update and re-attach,
+// and a Compute whose function panics.
 package main
 
 import (
 	"fmt"
 	"math/rand"
-	"os"
 
 	"github.com/iotaledger/hive.go/ds"
 	"github.com/iotaledger/hive.go/ds/reactive"
@@ -110,18 +118,41 @@ func b2i(b bool) int {
 	return 0
 }
 
-// derivedCheck is one derived value with its defining function of the current inputs.
-type derivedCheck struct {
-	construct string
-	about     string
-	get, want func() int
+// varNode is one derived value: a level of a chain input -> derived -> derived-of-derived ... want() is the defining
+// function of the CURRENT values of its parents, whatever these are. Derived values are writable themselves: after a
+// direct write that leaves a node different from its defining function the node is not checked (tainted) until one
+// of its parents changes its value, which must recompute it (incremental nodes - the Counter - stay tainted). What
+// is derived from the node is checked against the node's actual value throughout.
+type varNode struct {
+	construct, about string
+	v                reactive.Variable[int] // handle for direct writes; nil: none
+	get, want        func() int
+	parents          []func() int
+	incremental      bool
+	tainted          bool
+	detached         bool // torn down: no defining function until re-attached
+	hasSubscribers   bool // a middle node of a chain
+	last             []int
 }
 
 type entryStep struct {
 	Input string `json:"input"`
 	EP    string `json:"entry_point"`
 	Val   int    `json:"value"`
+	Note  string `json:"note,omitempty"`
 	Yield int    `json:"-"`
+}
+
+// computePanics calls v.Compute with a function that panics and recovers the panic.
+func computePanics(v reactive.Variable[int]) {
+	defer func() {
+		if r := recover(); r != nil {
+			if _, ok := r.(thrown); !ok {
+				panic(r)
+			}
+		}
+	}()
+	v.Compute(func(int) int { panic(thrown{}) })
 }
 
 // ============================================================== entry-var
@@ -143,7 +174,9 @@ func runEntryVar(rng *rand.Rand) (viols []viol, st runStats) {
 	up := make([]reactive.Variable[int], n) // optional upstream: in[i].InheritFrom(up[i]) while attached
 	unsubUp := make([]func(), n)
 	carrier := make([]string, n)
+	teardownInside := make([]func(), n) // run from inside the next update of input i (a subscriber registered first)
 	for i := range in {
+		i := i
 		switch rng.Intn(5) {
 		case 0, 1:
 			carrier[i] = "variable"
@@ -168,6 +201,13 @@ func runEntryVar(rng *rand.Rand) (viols []viol, st runStats) {
 		}
 		up[i] = reactive.NewVariable[int]()
 		st.shape += "/" + carrier[i][:1]
+		in[i].OnUpdate(func(_, _ int) {
+			if f := teardownInside[i]; f != nil {
+				teardownInside[i] = nil
+				f()
+				st.add("entry_var_teardowns_inside_update", 1)
+			}
+		})
 	}
 	ev := make([]reactive.Event, m)
 	for j := range ev {
@@ -182,36 +222,72 @@ func runEntryVar(rng *rand.Rand) (viols []viol, st runStats) {
 		}
 		return r
 	}
-	var checks []derivedCheck
-	add := func(construct, about string, get, want func() int) {
-		checks = append(checks, derivedCheck{construct, about, get, want})
+	var nodes []*varNode
+	add := func(nd *varNode) *varNode {
+		nodes = append(nodes, nd)
+		return nd
 	}
+	// re-attachable copies: InheritFrom / DeriveValueFrom targets of input i with their current teardown
+	type reatt struct {
+		node     *varNode
+		teardown func()
+		attach   func() func()
+	}
+	var reatts []*reatt
+	inputOf := map[*reatt]int{}
 	for i := range in {
 		i := i
 		d1 := reactive.NewDerivedVariable[int](func(_ int, x int) int { return 3*x + 1 }, in[i])
-		add("derivedvariable1", fmt.Sprintf("of input %d", i), d1.Get, func() int { return 3*in[i].Get() + 1 })
+		add(&varNode{construct: "derivedvariable1", about: fmt.Sprintf("of input %d", i), v: d1, get: d1.Get, want: func() int { return 3*in[i].Get() + 1 }, parents: []func() int{in[i].Get}, hasSubscribers: true})
 		ch := reactive.NewDerivedVariable[int](func(_ int, x int) int { return 2 * x }, d1)
-		add("derivedvariable1-chained", fmt.Sprintf("of the DerivedVariable of input %d", i), ch.Get, func() int { return 2 * (3*in[i].Get() + 1) })
+		add(&varNode{construct: "derivedvariable1-chained", about: fmt.Sprintf("of the DerivedVariable of input %d", i), v: ch, get: ch.Get, want: func() int { return 2 * d1.Get() }, parents: []func() int{d1.Get}, hasSubscribers: true})
+		ch2 := reactive.NewDerivedVariable2[int](func(_ int, x, y int) int { return x + 1000*y }, ch, d1)
+		add(&varNode{construct: "derivedvariable2-chained-twice", about: fmt.Sprintf("of both DerivedVariables above input %d", i), get: ch2.Get, want: func() int { return ch.Get() + 1000*d1.Get() }})
 		t := reactive.NewVariable[int]()
 		if rng.Intn(2) == 0 {
 			t.Init(77)
 		}
-		t.InheritFrom(in[i])
-		add("inheritfrom", fmt.Sprintf("copy of input %d", i), t.Get, in[i].Get)
+		tn := add(&varNode{construct: "inheritfrom", about: fmt.Sprintf("copy of input %d", i), v: t, get: t.Get, want: in[i].Get, parents: []func() int{in[i].Get}, hasSubscribers: true})
+		ra := &reatt{node: tn, attach: func() func() { return t.InheritFrom(in[i]) }}
+		ra.teardown = ra.attach()
+		reatts, inputOf[ra] = append(reatts, ra), i
+		tt := reactive.NewVariable[int]()
+		tt.InheritFrom(t)
+		ttn := add(&varNode{construct: "inheritfrom-chained", about: fmt.Sprintf("copy of the copy of input %d", i), v: tt, get: tt.Get, want: t.Get, parents: []func() int{t.Get}, hasSubscribers: true})
+		_ = ttn
+		ttd := reactive.NewDerivedVariable[int](func(_ int, x int) int { return x + 9 }, tt)
+		add(&varNode{construct: "derivedvariable1-of-inheritfrom-chain", about: fmt.Sprintf("of the copy of the copy of input %d", i), get: ttd.Get, want: func() int { return tt.Get() + 9 }})
 		t2 := reactive.NewVariable[int]()
-		t2.DeriveValueFrom(reactive.NewDerivedVariable[int](func(_ int, x int) int { return x + 5 }, in[i]))
-		add("derivevaluefrom", fmt.Sprintf("of input %d", i), t2.Get, func() int { return in[i].Get() + 5 })
+		t2n := add(&varNode{construct: "derivevaluefrom", about: fmt.Sprintf("of input %d", i), v: t2, get: t2.Get, want: func() int { return in[i].Get() + 5 }, parents: []func() int{in[i].Get}})
+		ra2 := &reatt{node: t2n, attach: func() func() {
+			return t2.DeriveValueFrom(reactive.NewDerivedVariable[int](func(_ int, x int) int { return x + 5 }, in[i]))
+		}}
+		ra2.teardown = ra2.attach()
+		reatts, inputOf[ra2] = append(reatts, ra2), i
 	}
+	allIn := make([]func() int, n)
+	for i := range in {
+		allIn[i] = in[i].Get
+	}
+	var dN reactive.DerivedVariable[int]
 	switch n {
 	case 2:
-		d := reactive.NewDerivedVariable2[int](func(_ int, a, b int) int { return f(a, b) }, in[0], in[1])
-		add("derivedvariable2", "of all inputs", d.Get, func() int { return f(in[0].Get(), in[1].Get()) })
+		dN = reactive.NewDerivedVariable2[int](func(_ int, a, b int) int { return f(a, b) }, in[0], in[1])
 	case 3:
-		d := reactive.NewDerivedVariable3[int](func(_ int, a, b, c int) int { return f(a, b, c) }, in[0], in[1], in[2])
-		add("derivedvariable3", "of all inputs", d.Get, func() int { return f(in[0].Get(), in[1].Get(), in[2].Get()) })
+		dN = reactive.NewDerivedVariable3[int](func(_ int, a, b, c int) int { return f(a, b, c) }, in[0], in[1], in[2])
 	case 4:
-		d := reactive.NewDerivedVariable4[int](func(_ int, a, b, c, e int) int { return f(a, b, c, e) }, in[0], in[1], in[2], in[3])
-		add("derivedvariable4", "of all inputs", d.Get, func() int { return f(in[0].Get(), in[1].Get(), in[2].Get(), in[3].Get()) })
+		dN = reactive.NewDerivedVariable4[int](func(_ int, a, b, c, e int) int { return f(a, b, c, e) }, in[0], in[1], in[2], in[3])
+	}
+	if dN != nil {
+		add(&varNode{construct: fmt.Sprintf("derivedvariable%d", n), about: "of all inputs", v: dN, get: dN.Get, parents: allIn, hasSubscribers: true, want: func() int {
+			x := make([]int, n)
+			for i := range in {
+				x[i] = in[i].Get()
+			}
+			return f(x...)
+		}})
+		dNc := reactive.NewDerivedVariable[int](func(_ int, x int) int { return x + 3 }, dN)
+		add(&varNode{construct: "derivedvariable1-chained", about: fmt.Sprintf("of the DerivedVariable%d of all inputs", n), get: dNc.Get, want: func() int { return dN.Get() + 3 }})
 	}
 	cname, cond, isDefault := counterCond(rng)
 	var cnt reactive.Counter[int]
@@ -227,14 +303,16 @@ func runEntryVar(rng *rand.Rand) (viols []viol, st runStats) {
 			monitored[i] = true
 		}
 	}
-	add("counter", "condition "+cname, cnt.Get, func() (w int) {
+	add(&varNode{construct: "counter", about: "condition " + cname, v: cnt, get: cnt.Get, incremental: true, hasSubscribers: true, want: func() (w int) {
 		for i := range in {
 			if monitored[i] && cond(in[i].Get()) {
 				w++
 			}
 		}
 		return
-	})
+	}})
+	cntD := reactive.NewDerivedVariable[int](func(_ int, x int) int { return 10 * x }, cnt)
+	add(&varNode{construct: "derivedvariable1-of-counter", about: "of the counter", get: cntD.Get, want: func() int { return 10 * cnt.Get() }})
 	// SortedSet whose weight variables are the inputs
 	sse := &ssEnv[int]{k: intKind, U: n, w: append([]reactive.Variable[int]{reactive.NewVariable[int]()}, in...)}
 	sse.ss = reactive.NewSortedSet[int, int](func(el int) reactive.Variable[int] { return sse.w[el] })
@@ -250,20 +328,26 @@ func runEntryVar(rng *rand.Rand) (viols []viol, st runStats) {
 			j := j
 			ec.Monitor(ev[j])
 			d := reactive.NewDerivedVariable[int](func(_ int, b bool) int { return 7 * b2i(b) }, ev[j])
-			add("derivedvariable1-of-event", fmt.Sprintf("of event %d", j), d.Get, func() int { return 7 * b2i(ev[j].Get()) })
+			add(&varNode{construct: "derivedvariable1-of-event", about: fmt.Sprintf("of event %d", j), get: d.Get, want: func() int { return 7 * b2i(ev[j].Get()) }})
 			t := reactive.NewVariable[bool]()
 			t.InheritFrom(ev[j])
-			add("inheritfrom-event", fmt.Sprintf("copy of event %d", j), func() int { return b2i(t.Get()) }, func() int { return b2i(ev[j].Get()) })
+			add(&varNode{construct: "inheritfrom-event", about: fmt.Sprintf("copy of event %d", j), get: func() int { return b2i(t.Get()) }, want: func() int { return b2i(ev[j].Get()) }})
 			et := reactive.NewEvent()
 			et.InheritFrom(ev[j])
-			add("event-inheritfrom-event", fmt.Sprintf("event following event %d", j), func() int { return b2i(et.WasTriggered()) }, func() int { return b2i(ev[j].WasTriggered()) })
+			add(&varNode{construct: "event-inheritfrom-event", about: fmt.Sprintf("event following event %d", j), get: func() int { return b2i(et.WasTriggered()) }, want: func() int { return b2i(ev[j].WasTriggered()) }})
 		}
-		add("counter-of-events", "default condition", ec.Get, func() (w int) {
+		add(&varNode{construct: "counter-of-events", about: "default condition", get: ec.Get, want: func() (w int) {
 			for j := range ev {
 				w += b2i(ev[j].Get())
 			}
 			return
-		})
+		}})
+	}
+	var middle []*varNode
+	for _, nd := range nodes {
+		if nd.v != nil && nd.hasSubscribers {
+			middle = append(middle, nd)
+		}
 	}
 	state := func() map[string]any {
 		vals := make([]int, n)
@@ -274,15 +358,22 @@ func runEntryVar(rng *rand.Rand) (viols []viol, st runStats) {
 		for j := range ev {
 			evs[j] = ev[j].Get()
 		}
-		return map[string]any{"inputs": vals, "carriers": carrier, "events": evs, "counter_condition": cname, "monitored": monitored}
+		var nv []string
+		for _, nd := range nodes {
+			nv = append(nv, fmt.Sprintf("%s %s = %d (directly written=%v, detached=%v)", nd.construct, nd.about, nd.get(), nd.tainted, nd.detached))
+		}
+		return map[string]any{"inputs": vals, "carriers": carrier, "events": evs, "counter_condition": cname, "monitored": monitored, "derived": nv}
 	}
 	// check returns the first derived value that differs from its defining function
 	check := func() (construct, what string, det map[string]any) {
-		for _, c := range checks {
+		for _, c := range nodes {
+			if c.tainted || c.detached {
+				continue
+			}
 			if got, want := c.get(), c.want(); got != want {
 				det = state()
 				det["construct"], det["got"], det["want"] = c.construct+" "+c.about, got, want
-				return c.construct, fmt.Sprintf("%s %s holds %d, its defining function of the current inputs is %d", c.construct, c.about, got, want), det
+				return c.construct, fmt.Sprintf("%s %s holds %d, its defining function of the current values it is derived from is %d", c.construct, c.about, got, want), det
 			}
 		}
 		if kind, what, sdet := sse.check(); kind != "" {
@@ -322,10 +413,54 @@ func runEntryVar(rng *rand.Rand) (viols []viol, st runStats) {
 	}
 	if seq {
 		var hist []any
-		for k, steps := 0, 4+rng.Intn(24); k < steps; k++ {
+		sinceMiddleWrite := -1
+		snapshot := func() {
+			for _, nd := range nodes {
+				nd.last = nd.last[:0]
+				for _, p := range nd.parents {
+					nd.last = append(nd.last, p())
+				}
+			}
+		}
+		// settle: a tainted node whose parent changed its value has been recomputed and has a defining function again
+		settle := func() {
+			for _, nd := range nodes {
+				if !nd.tainted || nd.incremental {
+					continue
+				}
+				for k, p := range nd.parents {
+					if p() != nd.last[k] {
+						nd.tainted = false
+					}
+				}
+			}
+		}
+		fail := func(c, ep, on, what string, det map[string]any) ([]viol, runStats) {
+			det["history"] = hist
+			st.nontrivial = true
+			return []viol{{c + "/diverges-after-write/" + ep, fmt.Sprintf("sequential history, derived values attached before the writes: after %s on %s: %s", ep, on, what), det}}, st
+		}
+		steps := 6 + rng.Intn(26)
+		for k := 0; k <= steps; k++ {
 			i := rng.Intn(n + m)
-			ep := ""
-			switch r := rng.Intn(8); {
+			ep, on := "", fmt.Sprintf("input/event %d", i)
+			snapshot()
+			var written *varNode
+			switch r := rng.Intn(12); {
+			case k == steps: // a write that aborts: Compute with a function that panics, on an input or a middle node
+				if rng.Intn(2) == 0 {
+					continue
+				}
+				v := in[rng.Intn(n)]
+				on = "an input"
+				if rng.Intn(2) == 0 {
+					nd := middle[rng.Intn(len(middle))]
+					v, on = nd.v, nd.construct+" "+nd.about
+				}
+				computePanics(v)
+				ep = "Compute-function-panics"
+				hist = append(hist, map[string]any{"on": on, "entry_point": ep})
+				st.add("entry_failed_writes", 1)
 			case r == 0 && i < n:
 				ep = toggleUp(i)
 				hist = append(hist, map[string]any{"input": i, "structural": ep})
@@ -335,8 +470,49 @@ func runEntryVar(rng *rand.Rand) (viols []viol, st runStats) {
 				ep = "upstream.Set"
 				hist = append(hist, map[string]any{"input": i, "upstream_set": v})
 				st.ops++
+			case r == 2: // tear an InheritFrom / DeriveValueFrom down from inside the next update of its input, or re-attach
+				ra := reatts[rng.Intn(len(reatts))]
+				st.structural++
+				if ra.node.detached {
+					ra.teardown = ra.attach()
+					ra.node.detached, ra.node.tainted = false, false
+					ep = "re-attach " + ra.node.construct
+				} else {
+					teardownInside[inputOf[ra]] = func() {
+						ra.teardown()
+						ra.node.detached = true
+					}
+					ep = "arm teardown of " + ra.node.construct + " inside the next update"
+				}
+				hist = append(hist, map[string]any{"input": inputOf[ra], "structural": ep})
+			case r <= 5: // direct write on a middle node of a chain, mostly one that changes nothing
+				nd := middle[rng.Intn(len(middle))]
+				s := entryStep{Input: nd.construct + " " + nd.about, EP: varEntryPoints[rng.Intn(len(varEntryPoints))], Val: val()}
+				if rng.Intn(3) != 0 {
+					s.Note = "changes nothing"
+					switch s.Val = nd.get(); s.EP {
+					case "Compute":
+						s.Val = 0
+					case "ToggleValue+reset":
+						s.EP = "ToggleValue"
+					}
+				}
+				before := nd.get()
+				writeVar(nd.v, s.EP, s.Val, maxVal)
+				ep, on, written = s.EP, s.Input, nd
+				hist = append(hist, s)
+				st.ops++
+				st.add("entry_var_middle_writes:"+ep, 1)
+				if nd.get() == before {
+					st.add("entry_var_middle_writes_without_effect", 1)
+				}
+				sinceMiddleWrite = 0
 			default:
 				s := genStep(i)
+				before := 0
+				if i < n {
+					before = in[i].Get()
+				}
 				exec(i, s)
 				ep = s.EP
 				hist = append(hist, s)
@@ -346,12 +522,19 @@ func runEntryVar(rng *rand.Rand) (viols []viol, st runStats) {
 					st.add("entry_event_writes", 1)
 				} else {
 					st.add("entry_writes_on_carrier:"+carrier[i], 1)
+					if sinceMiddleWrite >= 0 && in[i].Get() != before {
+						if sinceMiddleWrite++; sinceMiddleWrite == 2 {
+							st.add("entry_var_middle_write_then_two_input_changes", 1)
+						}
+					}
 				}
 			}
+			settle()
+			if written != nil {
+				written.tainted = written.tainted || written.get() != written.want()
+			}
 			if c, what, det := check(); c != "" {
-				det["history"] = hist
-				st.nontrivial = true
-				return []viol{{c + "/diverges-after-write/" + ep, fmt.Sprintf("sequential history, derived values attached before the writes: after %s on input/event %d: %s", ep, i, what), det}}, st
+				return fail(c, ep, on, what, det)
 			}
 		}
 		st.nontrivial = st.ops >= 3
@@ -413,16 +596,8 @@ func runEntryVar(rng *rand.Rand) (viols []viol, st runStats) {
 
 // ============================================================== entry-set
 
-// demandClearAndDecode: reactive.Set exports Clear (through ds.ReadableSet) and Decode; on the pinned tree both change
-// the elements without telling the subscribers (see proposed_fixes/C14-reactive-set-clear-decode-bypass-subscribers).
-// While false, the two entry points are driven as the LAST step of a history and a stale derived set after them is
-// only noted and counted (entry_set_stale_after_clear_or_decode_not_demanded). Make it true by default once the fix
-// is in /repo or the finding is registered as known; C14_DEMAND_CLEAR_DECODE=1 switches it on for a development run
-// against a scratch worktree that has the fix.
-// The fix is in /repo (77f8d8d), so the rule is on by default; C14_DEMAND_CLEAR_DECODE=0 switches it off for a development run.
-var demandClearAndDecode = os.Getenv("C14_DEMAND_CLEAR_DECODE") != "0"
-
-var setEntryPoints = []string{"Add", "AddAll", "Delete", "DeleteAll", "Apply", "Compute", "Replace"}
+// Every exported way to write a reactive.Set (Clear is promoted from ds.ReadableSet).
+var setEntryPoints = []string{"Add", "AddAll", "Delete", "DeleteAll", "Apply", "Compute", "Replace", "Clear", "Decode"}
 
 func mask64(s ds.ReadableSet[int64]) (m uint32) {
 	s.Range(func(e int64) { m |= 1 << uint(e) })
@@ -441,78 +616,184 @@ func set64(m uint32) ds.Set[int64] {
 
 var serixAPI = serix.NewAPI()
 
-type entrySetStep struct {
-	Src  int    `json:"src"`
-	EP   string `json:"entry_point"`
-	A, B string
-	a, b uint32
+func encode64(m uint32) []byte {
+	b, err := set64(m).Encode(serixAPI)
+	if err != nil {
+		panic(err)
+	}
+	return b
 }
 
+type entrySetStep struct {
+	On   string `json:"on"`
+	EP   string `json:"entry_point"`
+	A, B string
+	Note string `json:"note,omitempty"`
+	a, b uint32
+	cut  int // Decode: number of payload bytes handed over (-1: all); -2: element count in the header inflated
+}
+
+// setNode is one level of a chain of reactive sets. want() is the defining function of the CURRENT contents of the
+// parents, whatever these are. A node that was written directly with effect (a DerivedSet / SubtractReactive result is
+// a writable Set, too) no longer has a defining function (tainted); everything derived from it still has.
+type setNode struct {
+	name, construct string
+	set             reactive.Set[int64]
+	want            func() uint32 // nil: a source
+	tainted         bool
+	depth           int
+}
+
+type thrown struct{}
+
+// execEntrySetStep runs one write entry point; failed reports a Decode that returned an error / a factory that panicked.
+func execEntrySetStep(set reactive.Set[int64], s entrySetStep) (failed bool) {
+	switch s.EP {
+	case "Add":
+		set.Add(int64(trailing(s.a)))
+	case "Delete":
+		set.Delete(int64(trailing(s.a)))
+	case "AddAll":
+		set.AddAll(set64(s.a))
+	case "DeleteAll":
+		set.DeleteAll(set64(s.a))
+	case "Apply":
+		set.Apply(ds.NewSetMutations[int64]().WithAddedElements(set64(s.a)).WithDeletedElements(set64(s.b)))
+	case "Compute":
+		set.Compute(func(cur ds.ReadableSet[int64]) ds.SetMutations[int64] {
+			return ds.NewSetMutations[int64]().WithAddedElements(set64(s.a &^ mask64(cur))).WithDeletedElements(set64(s.b & mask64(cur)))
+		})
+	case "Compute-factory-panics":
+		func() {
+			defer func() {
+				if r := recover(); r != nil {
+					if _, ok := r.(thrown); !ok {
+						panic(r)
+					}
+					failed = true
+				}
+			}()
+			set.Compute(func(ds.ReadableSet[int64]) ds.SetMutations[int64] { panic(thrown{}) })
+		}()
+	case "Replace":
+		set.Replace(set64(s.a))
+	case "Clear":
+		set.Clear()
+	case "Decode":
+		b := encode64(s.a)
+		switch {
+		case s.cut == -2:
+			b[0] += 3 // the header announces more elements than the payload holds: the error comes after the last element
+		case s.cut >= 0 && s.cut < len(b):
+			b = b[:s.cut]
+		}
+		_, err := set.Decode(serixAPI, b)
+		failed = err != nil
+	default:
+		panic("unknown set entry point " + s.EP)
+	}
+	return
+}
+
+// runEntrySet: chains of reactive sets, three levels deep, in which EVERY writable level is written through every
+// entry point - the sources, and the middle nodes (DerivedSet, chained DerivedSet, SubtractReactive result) directly,
+// mostly with writes that change nothing (Delete of an absent element, Add of a present one, Replace by the same
+// contents, an empty Apply, a Decode that fails ...), followed by further source mutations. Writes that fail or abort
+// part-way (Decode of a payload cut at every position / with an inflated element count, a Compute whose factory
+// panics, an InheritFrom torn down from inside a callback of the update that is being delivered) must leave every
+// level equal to its defining function of whatever its parents hold afterwards. Oracle after every step, all levels.
 func runEntrySet(rng *rand.Rand) (viols []viol, st runStats) {
 	K := 1 + rng.Intn(3)
 	U := 3 + rng.Intn(6)
 	st.shape = fmt.Sprintf("entry-set/k%d", K)
-	rmask := func() uint32 { return (rng.Uint32() & (1<<uint(U) - 1)) << 1 }
+	all := uint32(1<<uint(U)-1) << 1
+	rmask := func() uint32 { return rng.Uint32() & all }
 	src := make([]reactive.Set[int64], K)
+	armed := make([]bool, K) // tear the inheritance of source i down from inside the next update of source i
+	unsub := make([]func(), K)
+	inherited := make([]bool, K)
+	D := reactive.NewDerivedSet[int64]()
 	for i := range src {
+		i := i
 		src[i] = reactive.NewSet[int64]()
 		if rng.Intn(2) == 0 {
 			src[i].AddAll(set64(rmask()))
 		}
+		// registered before D subscribes: runs first while an update of source i is being delivered
+		src[i].OnUpdate(func(ds.SetMutations[int64]) {
+			if armed[i] && inherited[i] {
+				armed[i] = false
+				unsub[i]()
+				inherited[i] = false
+				st.add("entry_set_teardowns_inside_update", 1)
+			}
+		})
 	}
-	D := reactive.NewDerivedSet[int64]()
-	inherited := make([]bool, K)
 	for i := range src {
 		if i == 0 || rng.Intn(4) != 0 {
-			D.InheritFrom(src[i])
+			unsub[i] = D.InheritFrom(src[i])
 			inherited[i] = true
 		}
 	}
 	D2 := reactive.NewDerivedSet[int64]()
 	D2.InheritFrom(D)
+	D3 := reactive.NewDerivedSet[int64]()
+	D3.InheritFrom(D2)
 	others := make([]reactive.ReadableSet[int64], 0, K)
 	for _, o := range src[1:] {
 		others = append(others, o)
 	}
 	R := src[0].SubtractReactive(others...)
 	RD := D.SubtractReactive(src[K-1]) // a derived set as the source of a further derived set
-	union := func() (w uint32) {
+	DR := reactive.NewDerivedSet[int64]()
+	DR.InheritFrom(R)
+	R3 := D2.SubtractReactive(R)
+	var nodes []*setNode
+	for i := range src {
+		nodes = append(nodes, &setNode{name: fmt.Sprintf("source %d", i), set: src[i]})
+	}
+	nD := &setNode{name: "D", construct: "derivedset", set: D, depth: 1, want: func() (w uint32) {
 		for i := range src {
 			if inherited[i] {
 				w |= mask64(src[i])
 			}
 		}
 		return
-	}
-	type sc struct {
-		construct string
-		get, want func() uint32
-	}
-	checks := []sc{
-		{"derivedset", func() uint32 { return mask64(D) }, union},
-		{"derivedset-chained", func() uint32 { return mask64(D2) }, union},
-		{"subtractreactive", func() uint32 { return mask64(R) }, func() uint32 {
-			w := mask64(src[0])
-			for _, o := range src[1:] {
-				w &^= mask64(o)
-			}
-			return w
-		}},
-		{"subtractreactive-of-derivedset", func() uint32 { return mask64(RD) }, func() uint32 { return union() &^ mask64(src[K-1]) }},
-	}
+	}}
+	nD2 := &setNode{name: "D2", construct: "derivedset-chained", set: D2, depth: 2, want: func() uint32 { return mask64(D) }}
+	nD3 := &setNode{name: "D3", construct: "derivedset-chained-twice", set: D3, depth: 3, want: func() uint32 { return mask64(D2) }}
+	nR := &setNode{name: "R", construct: "subtractreactive", set: R, depth: 1, want: func() uint32 {
+		w := mask64(src[0])
+		for _, o := range src[1:] {
+			w &^= mask64(o)
+		}
+		return w
+	}}
+	nRD := &setNode{name: "RD", construct: "subtractreactive-of-derivedset", set: RD, depth: 2, want: func() uint32 { return mask64(D) &^ mask64(src[K-1]) }}
+	nDR := &setNode{name: "DR", construct: "derivedset-of-subtractreactive", set: DR, depth: 2, want: func() uint32 { return mask64(R) }}
+	nR3 := &setNode{name: "R3", construct: "subtractreactive-of-chained-sets", set: R3, depth: 3, want: func() uint32 { return mask64(D2) &^ mask64(R) }}
+	derived := []*setNode{nD, nD2, nD3, nR, nRD, nDR, nR3}
+	middle := []*setNode{nD, nD2, nR} // derived nodes that have subscribers of their own
+	nodes = append(nodes, derived...)
 	state := func() map[string]any {
 		var ss []string
 		for i := range src {
 			ss = append(ss, fmt.Sprintf("source %d inherited=%v %s", i, inherited[i], mstr(mask64(src[i]))))
 		}
-		return map[string]any{"sources": ss}
+		for _, n := range derived {
+			ss = append(ss, fmt.Sprintf("%s (%s) directly_written_with_effect=%v %s", n.name, n.construct, n.tainted, mstr(mask64(n.set))))
+		}
+		return map[string]any{"sets": ss}
 	}
 	check := func() (construct, what string, det map[string]any) {
-		for _, c := range checks {
-			if got, want := c.get(), c.want(); got != want {
+		for _, n := range derived {
+			if n.tainted {
+				continue
+			}
+			if got, want := mask64(n.set), n.want(); got != want {
 				det = state()
-				det["construct"], det["got"], det["want"] = c.construct, mstr(got), mstr(want)
-				return c.construct, fmt.Sprintf("%s holds %s, its defining function of the current sources is %s", c.construct, mstr(got), mstr(want)), det
+				det["construct"], det["got"], det["want"] = n.construct, mstr(got), mstr(want)
+				return n.construct, fmt.Sprintf("%s (%s) holds %s, its defining function of the current contents of its sources is %s", n.construct, n.name, mstr(got), mstr(want)), det
 			}
 		}
 		return "", "", nil
@@ -521,80 +802,190 @@ func runEntrySet(rng *rand.Rand) (viols []viol, st runStats) {
 		st.nontrivial = true
 		return []viol{{c + "/diverges-at-creation", what, det}}, st
 	}
-	exec := func(s entrySetStep) {
-		set := src[s.Src]
-		switch s.EP {
-		case "Add":
-			set.Add(int64(trailing(s.a)))
-		case "Delete":
-			set.Delete(int64(trailing(s.a)))
-		case "AddAll":
-			set.AddAll(set64(s.a))
-		case "DeleteAll":
-			set.DeleteAll(set64(s.a))
-		case "Apply":
-			set.Apply(ds.NewSetMutations[int64]().WithAddedElements(set64(s.a)).WithDeletedElements(set64(s.b)))
-		case "Compute":
-			e := int64(trailing(s.a))
-			set.Compute(func(cur ds.ReadableSet[int64]) ds.SetMutations[int64] {
-				if cur.Has(e) {
-					return ds.NewSetMutations[int64]().WithDeletedElements(ds.NewSet(e))
-				}
-				return ds.NewSetMutations[int64](e)
-			})
-		case "Replace":
-			set.Replace(set64(s.a))
-		case "Clear":
-			set.Clear()
-		case "Decode":
-			b, err := set64(s.a).Encode(serixAPI)
-			if err != nil {
-				panic(err)
+	// genStep: a write on node n; noop: arguments chosen so that the contents cannot change
+	genStep := func(n *setNode, noop bool) entrySetStep {
+		s := entrySetStep{On: n.name, EP: setEntryPoints[rng.Intn(len(setEntryPoints))], cut: -1}
+		cur := mask64(n.set)
+		one := func(m uint32) uint32 { // one element of m
+			if m == 0 {
+				return 0
 			}
-			if _, err = set.Decode(serixAPI, b); err != nil {
-				panic(err)
+			for {
+				if e := uint32(1) << uint(1+rng.Intn(U)); m&e != 0 {
+					return e
+				}
+			}
+		}
+		if noop {
+			s.Note = "changes nothing"
+			switch s.EP {
+			case "Add":
+				if s.a = one(cur); s.a == 0 {
+					s.EP, s.a = "Delete", one(all)
+				}
+			case "Delete":
+				if s.a = one(all &^ cur); s.a == 0 {
+					s.EP, s.a = "Add", one(cur)
+				}
+			case "AddAll", "Decode":
+				s.a = cur & rmask()
+			case "DeleteAll":
+				s.a = all &^ cur & rmask()
+			case "Apply", "Compute":
+				if rng.Intn(2) == 0 {
+					s.a, s.b = cur&rmask(), all&^cur&rmask()
+				}
+			case "Replace":
+				s.a = cur
+			case "Clear":
+				if cur != 0 {
+					s.EP, s.a = "Replace", cur
+				}
+			}
+		} else {
+			switch s.EP {
+			case "Add", "Delete":
+				s.a = one(all)
+			case "AddAll", "DeleteAll", "Replace", "Decode":
+				s.a = rmask() & rmask()
+				if rng.Intn(3) == 0 {
+					s.a = rmask()
+				}
+			case "Apply", "Compute":
+				s.a = rmask() & rmask()
+				s.b = rmask() & rmask()
+				if rng.Intn(4) != 0 {
+					s.b &^= s.a // else: some elements are named as added AND deleted
+				}
+			}
+			if s.EP == "Decode" && rng.Intn(2) == 0 { // a Decode that fails part-way
+				s.a |= one(all &^ cur)
+				s.Note = "fails"
+				if s.cut = rng.Intn(4 + 8*bits32(s.a)); rng.Intn(4) == 0 {
+					s.cut = -2
+				}
+			}
+		}
+		s.A, s.B = mstr(s.a), mstr(s.b)
+		return s
+	}
+	var hist []any
+	sinceMiddleWrite := -1 // source mutations that had an effect since the last direct write on a middle node
+	// apply executes the step, maintains the taint marks and evaluates the oracle on every level
+	apply := func(n *setNode, s entrySetStep) bool {
+		before := mask64(n.set)
+		failed := execEntrySetStep(n.set, s)
+		hist = append(hist, s)
+		st.ops++
+		after := mask64(n.set)
+		if n.want == nil {
+			st.add("entry_set_writes:"+s.EP, 1)
+			if sinceMiddleWrite >= 0 && after != before {
+				if sinceMiddleWrite++; sinceMiddleWrite == 2 {
+					st.add("entry_set_middle_write_then_two_source_mutations", 1)
+				}
+			}
+		} else {
+			st.add("entry_set_middle_writes:"+s.EP, 1)
+			if after == before {
+				st.add("entry_set_middle_writes_without_effect", 1)
+			} else {
+				n.tainted = true
+			}
+			sinceMiddleWrite = 0
+		}
+		if failed {
+			st.add("entry_failed_writes", 1)
+			if s.EP == "Decode" && (s.cut == -2 || s.cut >= 12) {
+				st.add("entry_set_failed_decodes_after_a_complete_element", 1)
+			}
+		}
+		if c, what, det := check(); c != "" {
+			det["history"] = hist
+			st.nontrivial = true
+			ep := s.EP
+			if failed {
+				ep += "-fails"
+			}
+			on := "source"
+			if n.want != nil {
+				on = "middle-node"
+			}
+			viols = []viol{{c + "/diverges-after-" + on + "-write/" + ep, fmt.Sprintf("sequential history: after %s on %s: %s", ep, n.name, what), det}}
+			return false
+		}
+		return true
+	}
+	for k, steps := 0, 6+rng.Intn(26); k < steps; k++ {
+		switch r := rng.Intn(12); {
+		case r == 0: // structural change at a quiescent point
+			i := rng.Intn(K)
+			kind := "inherit-source"
+			if inherited[i] {
+				unsub[i]()
+				inherited[i] = false
+				kind = "unsubscribe-source"
+			} else {
+				unsub[i] = D.InheritFrom(src[i])
+				inherited[i] = true
+			}
+			st.structural++
+			hist = append(hist, map[string]any{"structural": kind, "source": i})
+			if c, what, det := check(); c != "" {
+				det["history"] = hist
+				st.nontrivial = true
+				return []viol{{c + "/diverges-after/" + kind, "sequential history: after " + kind + ": " + what, det}}, st
+			}
+		case r == 1: // the next update of source i tears its inheritance down from inside
+			i := rng.Intn(K)
+			armed[i] = inherited[i]
+			st.structural++
+			hist = append(hist, map[string]any{"structural": "unsubscribe-source-inside-its-next-update", "source": i})
+		case r <= 4: // direct write on a middle node, mostly without effect
+			n := middle[rng.Intn(len(middle))]
+			if !apply(n, genStep(n, rng.Intn(4) != 0)) {
+				return
+			}
+		default:
+			n := nodes[rng.Intn(K)]
+			if !apply(n, genStep(n, rng.Intn(6) == 0)) {
+				return
 			}
 		}
 	}
-	var hist []entrySetStep
-	for k, steps := 0, 4+rng.Intn(24); k <= steps; k++ {
-		s := entrySetStep{Src: rng.Intn(K), EP: setEntryPoints[rng.Intn(len(setEntryPoints))]}
-		last := k == steps
-		if last {
-			s.EP = []string{"Clear", "Decode"}[rng.Intn(2)]
+	// failing writes, systematically: one payload cut at every position (and with an inflated element count), on a
+	// source or on a middle node; then a Compute whose factory panics
+	if rng.Intn(2) == 0 {
+		n := nodes[rng.Intn(K)]
+		if rng.Intn(3) == 0 {
+			n = middle[rng.Intn(len(middle))]
 		}
-		switch s.EP {
-		case "Add", "Delete", "Compute":
-			s.a = 1 << uint(1+rng.Intn(U))
-		case "AddAll", "DeleteAll", "Replace", "Decode":
-			s.a = rmask() & rmask()
-			if rng.Intn(3) == 0 {
-				s.a = rmask()
+		payload := rmask() | all&^mask64(n.set)&rmask()
+		for cut := -2; cut < 4+8*bits32(payload); cut++ {
+			if cut == -1 {
+				continue
 			}
-		case "Apply":
-			s.a = rmask() & rmask()
-			s.b = rmask() & rmask() &^ s.a
-		}
-		s.A, s.B = mstr(s.a), mstr(s.b)
-		before := mask64(src[s.Src])
-		exec(s)
-		hist = append(hist, s)
-		st.ops++
-		st.add("entry_set_writes:"+s.EP, 1)
-		if last && mask64(src[s.Src]) != before {
-			st.add("entry_set_effective_clear_or_decode", 1)
-		}
-		if c, what, det := check(); c != "" {
-			if last && !demandClearAndDecode {
-				st.add("entry_set_stale_after_clear_or_decode_not_demanded", 1)
-				break
+			s := entrySetStep{On: n.name, EP: "Decode", a: payload, A: mstr(payload), cut: cut, Note: fmt.Sprintf("payload cut after %d bytes (-2: element count inflated)", cut)}
+			if !apply(n, s) {
+				return
 			}
-			det["history"] = hist
-			st.nontrivial = true
-			return []viol{{c + "/diverges-after-write/" + s.EP, fmt.Sprintf("sequential history: after %s on source %d: %s", s.EP, s.Src, what), det}}, st
+		}
+		st.add("entry_set_decode_cut_sweeps", 1)
+	}
+	if rng.Intn(3) == 0 {
+		n := nodes[rng.Intn(len(nodes))]
+		if !apply(n, entrySetStep{On: n.name, EP: "Compute-factory-panics", cut: -1}) {
+			return
 		}
 	}
 	st.nontrivial = true
+	return
+}
+
+func bits32(m uint32) (n int) {
+	for ; m != 0; m &= m - 1 {
+		n++
+	}
 	return
 }
 
